@@ -175,3 +175,55 @@ end
 
 end Json
 end JL
+
+namespace JL
+namespace Json
+
+/-! ## decidable (structural) equality, written by hand: `deriving DecidableEq` does not apply to the nested inductive -/
+mutual
+def eqb : Json → Json → Bool
+  | null, null => true
+  | bool a, bool b => a == b
+  | num a, num b => decide (a = b)
+  | str a, str b => decide (a = b)
+  | arr a, arr b => eqbList a b
+  | obj a, obj b => eqbKvs a b
+  | _, _ => false
+def eqbList : List Json → List Json → Bool
+  | [], [] => true
+  | a :: as, b :: bs => eqb a b && eqbList as bs
+  | _, _ => false
+def eqbKvs : List (Str × Json) → List (Str × Json) → Bool
+  | [], [] => true
+  | (k, a) :: as, (l, b) :: bs => decide (k = l) && eqb a b && eqbKvs as bs
+  | _, _ => false
+end
+
+mutual
+theorem eqb_iff : ∀ a b : Json, eqb a b = true ↔ a = b
+  | null, b => by cases b <;> simp [eqb]
+  | bool x, b => by cases b <;> simp [eqb]
+  | num x, b => by cases b <;> simp [eqb]
+  | str x, b => by cases b <;> simp [eqb]
+  | arr xs, b => by
+      cases b <;> simp [eqb]
+      exact eqbList_iff xs _
+  | obj xs, b => by
+      cases b <;> simp [eqb]
+      exact eqbKvs_iff xs _
+theorem eqbList_iff : ∀ a b : List Json, eqbList a b = true ↔ a = b
+  | [], [] => by simp [eqbList]
+  | [], _ :: _ => by simp [eqbList]
+  | _ :: _, [] => by simp [eqbList]
+  | a :: as, b :: bs => by simp [eqbList, eqb_iff a b, eqbList_iff as bs]
+theorem eqbKvs_iff : ∀ a b : List (Str × Json), eqbKvs a b = true ↔ a = b
+  | [], [] => by simp [eqbKvs]
+  | [], _ :: _ => by simp [eqbKvs]
+  | _ :: _, [] => by simp [eqbKvs]
+  | (k, a) :: as, (l, b) :: bs => by simp [eqbKvs, eqb_iff a b, eqbKvs_iff as bs, and_assoc]
+end
+
+instance : DecidableEq Json := fun a b => decidable_of_iff _ (eqb_iff a b)
+
+end Json
+end JL
